@@ -30,4 +30,6 @@ def build_registry():
                 continue
             raise
         mod.register(reg, S)
+    from . import oracles
+    oracles.attach(reg)
     return reg
